@@ -464,4 +464,123 @@ theorem disqualifyConflicts_ok {c : Cfg} {S : List Pkg} (ctx : PCtx c S) (sd : P
   have h1' : disqualifyConflicts c best dq = some d1 := h1
   exact ⟨d1, h1', hf1, dqSub_of_subset (C02.disqualifyConflicts_infl c best dq d1 h1')⟩
 
+/-! ### `pick` of a member never conflicts -/
+
+/-- the state of the loop over the provides of `pkg` inside `pick`, after the provides `done` -/
+structure PickInv (S : List Pkg) (sel : List (Text × Pkg)) (pkg : Pkg) (done : List Text) (s : List (Text × Pkg)) : Prop where
+  src : ∀ n m, lookupT s n = some m → lookupT sel n = some m ∨
+    (m = pkg ∧ (n = pkg.name ∨ ∃ pr ∈ done, provName pr = n ∧ (pc pr).version ≠ []))
+  own : lookupT s pkg.name = some pkg
+  keep : ∀ n m, lookupT sel n = some m → lookupT s n = some m
+
+theorem pick_fold {c : Cfg} {S : List Pkg} (ctx : PCtx c S) (sd : PSide c S) {pkg : Pkg} (hpkg : pkg ∈ S)
+    {sel : List (Text × Pkg)} (hsel : SelOK S sel) (hnone : lookupT sel pkg.name = none) :
+    ∀ (rest done : List Text), done ++ rest = pkg.provides → ∀ s, PickInv S sel pkg done s →
+      ∃ s2, rest.foldlM (fun s prov =>
+        let con := parseConstraint prov
+        match lookupT s con.name with
+        | some _ => none
+        | none => if con.version.isEmpty then some s else some (setT s con.name pkg)) s = some s2 ∧
+        PickInv S sel pkg pkg.provides s2 := by
+  intro rest
+  induction rest with
+  | nil =>
+    intro done hd s hs
+    simp only [List.append_nil] at hd
+    exact ⟨s, rfl, hd ▸ hs⟩
+  | cons prov rest ih =>
+    intro done hd s hs
+    simp only [List.foldlM_cons]
+    have hprov : prov ∈ pkg.provides := by rw [← hd]; simp
+    have hpw := sd.hd pkg hpkg
+    rw [← hd, List.map_append, List.pairwise_append] at hpw
+    have hfree : lookupT s (parseConstraint prov).name = none := by
+      cases hl : lookupT s (parseConstraint prov).name with
+      | none => rfl
+      | some m =>
+        exfalso
+        rcases hs.src _ _ hl with h | ⟨rfl, h | ⟨pr, hpr, hn, _⟩⟩
+        · obtain ⟨hmS, halt, hmm⟩ := hsel _ _ h
+          have hne : m ≠ pkg := by
+            intro e
+            rw [e, hnone] at hmm
+            cases hmm
+          rcases halt with hmn | ⟨pr2, hpr2, hn2, hv2⟩
+          · exact (sd.hb pkg (ctx.sIn pkg hpkg) prov hprov m hmS hmn.symm).2 hpkg
+          · exact hv2 (sd.hv pkg hpkg m hmS (fun e => hne e.symm) prov hprov pr2 hpr2 hn2.symm).2
+        · exact (sd.hb m (ctx.sIn m hpkg) prov hprov m hpkg h).2 hpkg
+        · exact hpw.2.2 (provName pr) (List.mem_map.mpr ⟨pr, hpr, rfl⟩) (provName prov) (by simp) hn
+    simp only [hfree]
+    have hd2 : (done ++ [prov]) ++ rest = pkg.provides := by rw [← hd]; simp
+    split
+    · simp only [Option.bind_eq_bind, Option.bind_some]
+      refine ih (done ++ [prov]) hd2 s ⟨?_, hs.own, hs.keep⟩
+      intro n m h
+      rcases hs.src n m h with h1 | ⟨h1, h2 | ⟨pr, hpr, h3⟩⟩
+      · exact Or.inl h1
+      · exact Or.inr ⟨h1, Or.inl h2⟩
+      · exact Or.inr ⟨h1, Or.inr ⟨pr, List.mem_append_left _ hpr, h3⟩⟩
+    · next hve =>
+      simp only [Option.bind_eq_bind, Option.bind_some]
+      refine ih (done ++ [prov]) hd2 _ ⟨?_, ?_, ?_⟩
+      · intro n m h
+        rw [lkp_setT] at h
+        split at h
+        · next e =>
+          simp only [Option.some.injEq] at h
+          refine Or.inr ⟨h.symm, Or.inr ⟨prov, by simp, e.symm, by simpa using hve⟩⟩
+        · rcases hs.src n m h with h1 | ⟨h1, h2 | ⟨pr, hpr, h3⟩⟩
+          · exact Or.inl h1
+          · exact Or.inr ⟨h1, Or.inl h2⟩
+          · exact Or.inr ⟨h1, Or.inr ⟨pr, List.mem_append_left _ hpr, h3⟩⟩
+      · rw [lkp_setT]
+        split
+        · rfl
+        · exact hs.own
+      · intro n m h
+        rw [lkp_setT]
+        split
+        · next e =>
+          have hk := hs.keep n m h
+          rw [e, hfree] at hk
+          cases hk
+        · exact hs.keep n m h
+
+theorem pick_ok {c : Cfg} {S : List Pkg} (ctx : PCtx c S) (sd : PSide c S) {pkg : Pkg} (hpkg : pkg ∈ S)
+    {sel : List (Text × Pkg)} (hsel : SelOK S sel) : ∃ sel2, pick pkg sel = some sel2 ∧ SelOK S sel2 := by
+  unfold pick
+  cases hl : lookupT sel pkg.name with
+  | some conflict =>
+    obtain ⟨h1, h2, _⟩ := hsel _ _ hl
+    have : conflict = pkg := by
+      rcases h2 with h2 | ⟨pr, hpr, hn, _⟩
+      · exact sd.names conflict h1 pkg hpkg h2
+      · exact absurd h1 (sd.hb conflict (ctx.sIn conflict h1) pr hpr pkg hpkg hn).2
+    subst this
+    exact ⟨sel, by simp, hsel⟩
+  | none =>
+    simp only
+    have h0 : PickInv S sel pkg [] (setT sel pkg.name pkg) := by
+      refine ⟨?_, by rw [lkp_setT]; simp, ?_⟩
+      · intro n m h
+        rw [lkp_setT] at h
+        split at h
+        · next e => simp only [Option.some.injEq] at h; exact Or.inr ⟨h.symm, Or.inl e⟩
+        · exact Or.inl h
+      · intro n m h
+        rw [lkp_setT]
+        split
+        · next e => rw [e, hl] at h; cases h
+        · exact h
+    obtain ⟨s2, hs2, hinv⟩ := pick_fold ctx sd hpkg hsel hl pkg.provides [] (by simp) _ h0
+    refine ⟨s2, hs2, ?_⟩
+    intro n m h
+    rcases hinv.src n m h with h1 | ⟨rfl, h2⟩
+    · obtain ⟨a, b, c2⟩ := hsel n m h1
+      exact ⟨a, b, hinv.keep _ _ c2⟩
+    · refine ⟨hpkg, ?_, hinv.own⟩
+      rcases h2 with h2 | ⟨pr, hpr, hn, hv⟩
+      · exact Or.inl h2.symm
+      · exact Or.inr ⟨pr, hpr, hn, hv⟩
+
 end Apko.LockP
